@@ -678,6 +678,19 @@ StepwiseFrom(prog, S, first) ==
 RunStepwise(prog, S) ==
   StepwiseFrom(prog, [S EXCEPT !.sig = "", !.err = NoErr, !.rv = VNil, !.hasrv = FALSE, !.out = ""], NoErr)
 
+\* The bloc command in interactive mode: like RunStepwise, and a top-level return prints the returned value
+\* on a line of its own (output_cli).
+RvLine(v) == IF IsNull(v) THEN "null\n" ELSE IF v.t \in {"bool", "int", "dec", "str"} THEN PrintText(v) \o "\n" ELSE ""
+RECURSIVE CliFrom(_, _, _)
+CliFrom(prog, S, nerr) ==
+  IF prog = <<>> THEN [S |-> S, nerr |-> nerr]
+  ELSE LET S1 == Exec(Head(prog), [S EXCEPT !.sig = "", !.err = NoErr, !.hasrv = FALSE])
+           S2 == IF S1.sig = "ret" /\ S1.hasrv THEN [S1 EXCEPT !.out = @ \o RvLine(S1.rv)] ELSE S1
+       IN  CliFrom(Tail(prog), [S2 EXCEPT !.sig = "", !.err = NoErr], IF S1.sig = "err" THEN nerr + 1 ELSE nerr)
+RunCliInteractive(prog, S) == CliFrom(prog, [S EXCEPT !.sig = "", !.err = NoErr, !.rv = VNil, !.hasrv = FALSE, !.out = ""], 0)
+\* what `bloc file` prints for the returned value of the program (main.cpp output())
+RvText(S) == IF S.sig = "ret" /\ S.hasrv THEN (IF IsNull(S.rv) THEN "null" ELSE IF S.rv.t \in {"bool", "int", "dec", "str"} THEN PrintText(S.rv) ELSE "") ELSE ""
+
 (* ------------------------------- rendering ---------------------------- *)
 RECURSIVE RE_(_), RArgs(_), RS(_), RList(_), RHandlers(_), RIfs(_, _)
 
